@@ -4,6 +4,7 @@ import (
 	"fmt"
 	"math"
 	"sort"
+	"strings"
 	"testing"
 
 	"github.com/unixpickle/model3d/model2d"
@@ -153,6 +154,13 @@ func rayContract(c model3d.Collider, r ray3, what string) ([]hit3, error) {
 		}
 		if l := first.Normal.Norm(); math.Abs(l-1) > 1e-9 {
 			return nil, fmt.Errorf("%s: FirstRayCollision normal %v is not unit (ray %+v)", what, first.Normal, r)
+		}
+		// the first collision is one of the enumerated ones: where it is the only one at its parameter it has that normal
+		// (not for the solid-sampling collider: its normals are estimates from random probes, drawn anew per call)
+		if !strings.HasPrefix(what, "SolidCollider") && (n == 1 || hits[1].scale-hits[0].scale > 1e-6*(1+hits[0].scale)) {
+			if d := m3.V3(first.Normal).Dist(hits[0].normal); d > 1e-6 {
+				return nil, fmt.Errorf("%s: FirstRayCollision reports normal %v, RayCollisions reports the same collision (parameter %.17g) with normal %v (ray %+v)", what, first.Normal, hits[0].scale, hits[0].normal, r)
+			}
 		}
 	}
 	return hits, nil
@@ -610,7 +618,7 @@ type query3 struct {
 }
 
 func genMeshCase(t *rapid.T) meshCase {
-	c := meshCase{Build: rapid.SampledFrom([]string{"mesh", "bvh", "grouped", "interp", "joined", "profile", "solid"}).Draw(t, "build")}
+	c := meshCase{Build: rapid.SampledFrom([]string{"mesh", "bvh", "bvhwide", "grouped", "interp", "joined", "profile", "solid"}).Draw(t, "build")}
 	ctr, size := kit.V3{}, 1.6
 	switch c.Build {
 	case "joined":
@@ -815,6 +823,23 @@ func checkMeshCase(c meshCase, o *kit.Obs) error {
 				return fmt.Errorf("JoinedCollider %+v: SphereCollision(%v, %g) = %v but the nearest part is %g away", c.Shapes, b.O, rad, got, best)
 			}
 		}
+		// an assembly is a part of larger ones, more than once: each larger join reports the assembly's collisions
+		// plus those of its own further part, whatever was built from the same assembly afterwards
+		count := func(col model3d.Collider, r ray3) int {
+			return col.RayCollisions(&model3d.Ray{Origin: m3.C3(r.O), Direction: m3.C3(r.D)}, nil)
+		}
+		for _, inner := range []model3d.Collider{j, model3d.NewJoinedCollider(append(append([]model3d.Collider{}, cs...), cs[0]))} {
+			first, last := cs[0], cs[len(cs)-1]
+			p1 := model3d.NewJoinedCollider([]model3d.Collider{inner, first})
+			p2 := model3d.NewJoinedCollider([]model3d.Collider{inner, last})
+			p3 := model3d.NewJoinedCollider([]model3d.Collider{inner, first, last})
+			for _, r := range c.Rays {
+				ni, nf, nl := count(inner, r), count(first, r), count(last, r)
+				if g1, g2, g3 := count(p1, r), count(p2, r), count(p3, r); g1 != ni+nf || g2 != ni+nl || g3 != ni+nf+nl {
+					return fmt.Errorf("JoinedCollider %+v: ray %+v: an assembly with %d collisions joined with part 0 (%d collisions), with the last part (%d) and with both gives %d, %d and %d collisions", c.Shapes, r, ni, nf, nl, g1, g2, g3)
+				}
+			}
+		}
 		return nil
 	case "profile":
 		s2 := *c.S2
@@ -906,6 +931,9 @@ func checkMeshCase(c meshCase, o *kit.Obs) error {
 	case "bvh":
 		ts := mesh.TriangleSlice()
 		coll = model3d.BVHToCollider(model3d.NewBVHAreaDensity(ts))
+	case "bvhwide":
+		// "a branch with two or more children": every other level of the binary hierarchy is dissolved into its parent
+		coll = model3d.BVHToCollider(widenBVH(model3d.NewBVHAreaDensity(mesh.TriangleSlice()), 0))
 	case "grouped":
 		ts := mesh.TriangleSlice()
 		model3d.GroupTriangles(ts)
@@ -1119,4 +1147,21 @@ func dirScale(t *rapid.T) float64 {
 		return gen.LogF(t, 1e-12, 1e12, "ds.wide")
 	}
 	return gen.LogF(t, 1e-3, 1e3, "ds")
+}
+
+func widenBVH(b *model3d.BVH[*model3d.Triangle], level int) *model3d.BVH[*model3d.Triangle] {
+	if b.Leaf != nil {
+		return b
+	}
+	var kids []*model3d.BVH[*model3d.Triangle]
+	for _, k := range b.Branch {
+		if k.Leaf == nil && level%2 == 0 {
+			for _, g := range k.Branch {
+				kids = append(kids, widenBVH(g, level+1))
+			}
+		} else {
+			kids = append(kids, widenBVH(k, level+1))
+		}
+	}
+	return &model3d.BVH[*model3d.Triangle]{Branch: kids}
 }
